@@ -316,6 +316,18 @@ fn main() {
                         if !same_tx(&normalise(&txs[1]), &normalise(t)) { push("meaning_changed", format!("parsed {:?}, expected {:?}", txs[1], t)); }
                     }
                     cnt.inc("accepted");
+                    // the browser front-end reads the same text through its own entry point (cgt-wasm, compiled natively):
+                    // the same transaction list, for every spelling
+                    if case_no % 3 == 0 {
+                        cnt.inc("wasm_parses");
+                        let t2 = text.clone();
+                        let w: Option<serde_json::Value> = guarded(move || cgt_wasm::parse_transactions(&t2).map_err(|_| ())).ok().and_then(|r| r.ok()).and_then(|s| serde_json::from_str(&s).ok());
+                        let want = serde_json::to_value(&txs).unwrap_or(json!(null));
+                        match w {
+                            None => push("wasm_parse_differs", "cgt-wasm parse_transactions refuses (or dies on) a text the library parses".into()),
+                            Some(g) => if cgtv::canon_numbers(&g) != cgtv::canon_numbers(&want) { push("wasm_parse_differs", format!("cgt-wasm parse_transactions reads {} where the library reads {}", g.to_string().chars().take(300).collect::<String>(), want.to_string().chars().take(300).collect::<String>())); },
+                        }
+                    }
                 }
             }
             Ok(Err(msg)) => {
